@@ -7,7 +7,8 @@ from contracts import roms_sample as S
 UNITS = [S.Trilinear(), S.Z2sKernelSorted(), S.Z2s(), S.Sample3DNearest(), S.Sample3DBilinear(), S.Sample3DUV(), F.Velocity(), F.ForceParticles(),
          I.GridInit(True), I.GridInit(False)] + list(I.FORCING_IO_UNITS)
 LEMMAS = [L.LerpBound(), L.NestedLerpIdentity(), L.SubgridIndependence()]
-NATIVE = [dict(name="exactness on linear fields, subgrid independence, packed vs float storage, land faces (real Grid + Forcing)", harness="sampling_bounded", kind="bounded")]
+NATIVE = [dict(name="exactness on linear fields, subgrid independence, packed vs float storage, land faces (real Grid + Forcing)", harness="sampling_bounded", kind="bounded"), 
+          dict(name="encoder validation: the interpreter in concrete mode vs the real numpy/numba functions", harness="validate_encoder", kind="validation", prepare="pyvc.validate:run_validation")]
 LEVEL = "proof"
 LEVEL_TEXT = ("Deductive proof for all positions, depths, masks, subgrids and both storage kinds: trilinear equals the specified interpolation (bilinear between the four surrounding "
               "nodes, linear between levels K-1 and K), is a convex combination of the eight node values (nested lerp-bound lemma) and exact on fields linear in x, y on the levels; "
